@@ -64,6 +64,8 @@ def _case(draw, tier):
             "path_state": draw(st.sampled_from(["absent", "absent", "empty-dir", "unrelated-file"])),
             "populated": draw(st.booleans()), "yaml_removed": draw(st.sampled_from([False] * 5 + [True])),
             "bad_int": draw(st.sampled_from([None] * 9 + ["x"])),
+            # opened through the class or through HashStoreFactory.get_hashstore (what the client uses)
+            "via": draw(st.sampled_from(["class", "factory"])),
             # an EARLIER store with another configuration lived at the same path in this process and was removed
             "previous_life": draw(st.sampled_from([None, None, {"store_depth": 2, "store_width": 3, "store_algorithm": "SHA-384",
                                                                  "store_metadata_namespace": "http://ns.example/previous"},
@@ -102,6 +104,10 @@ def run_case(case, ctx):
     f2 = common.write_file(os.path.join(src, "o2"), b"object two" * 900)
     m1 = common.write_file(os.path.join(src, "m1"), b"<meta/>")
     FHS = common.hs().FileHashStore
+    if case.get("via") == "factory":
+        import hashstore
+        FHS = lambda props: hashstore.HashStoreFactory.get_hashstore("hashstore.filehashstore", "FileHashStore", props)  # noqa
+        ctx.classify("opened-through-the-factory")
     create = dict(case["create"])
     if case["bad_int"]:
         create["store_depth"] = case["bad_int"]
